@@ -50,7 +50,7 @@ func runC15(c *core.Ctx) {
 	}
 	defer func() { h264SharedPrefix = nil }()
 	pay := opts.build()
-	gen := &mediaGen{kind: kind}
+	gen := &mediaGen{kind: kind, wellFormed: true}
 	long := newDepack(kind)
 	name := typeName(long)
 	ntrials := 1 + t.Intn(4)
